@@ -413,7 +413,7 @@ func GenImageSpec(r *Rng, maxBlocks int) ImageSpec {
 	// prefix handling is sensitive to
 	if len(s.Blocks) > 0 && r.Chance(1, 3) {
 		i := r.Intn(len(s.Blocks))
-		if k := s.Blocks[i].Kind; k != "id" && k != "idsha" && k != "shasha" {
+		if k := s.Blocks[i].Kind; k != "id" && k != "idj" && k != "idsha" && k != "shasha" {
 			cl := MakeBlock(BlkSpec{Kind: k, Seed: 1, Size: 1}).Cid.ByteLen()
 			s.Blocks[i].Size = Pick(r, []int{128, 256})*1 - cl + Pick(r, []int{-1, 0, 0, 0, 1})
 		}
